@@ -20,7 +20,7 @@ OUTPUTS = {
     "dollar-name": ["$HOME", "a$USERb", "$NAME1"],
     "backslash": ["a\\b", "\\1", "\\\\", "x\\"],
     "star": ["*", "a*"],
-    "braces": ["{a,b}", "x{1,2}"],
+    "braces": ["{a,b}", "x{1,2}", "{1..3}", "p{2..4}q"],       # (lists and ranges: the range pass runs after the substitutions)
     "regex-special": ["(.+)", "[a]", "a|b", "^$"],
     "interior-newline": ["l1\nl2", "a\n\nb"],
     "trailing-newlines": ["t\n", "t\n\n\n"],
